@@ -453,6 +453,109 @@ func passAnte(c *Ctx) error {
 	sb.WriteString("def commissionCases : List String := " + leanStrList(cases) + "\n")
 	sb.WriteString("def commissionUnwrapsExec : Option Bool := " + comUnwrap + "\n\n")
 
+	// ---- where the decorator's validators and their tokens come from
+	gvParams, gvStoreOnly := []string{}, "none"
+	if gv := FindFunc(files, "ValidateMinCommissionDecorator", "getValidator"); gv != nil && gv.Body != nil {
+		for _, f := range gv.Type.Params.List {
+			n := len(f.Names)
+			if n == 0 {
+				n = 1
+			}
+			for i := 0; i < n; i++ {
+				gvParams = append(gvParams, c.Src(f.Type))
+			}
+		}
+		// the only validator it may return is the one it read from the staking keeper; every other return
+		// is the empty struct together with a non-nil error
+		stored := ""
+		ast.Inspect(gv.Body, func(x ast.Node) bool {
+			if as, ok := x.(*ast.AssignStmt); ok && len(as.Lhs) == 2 && len(as.Rhs) == 1 && strings.HasPrefix(c.Src(as.Rhs[0]), "vcd.sk.GetValidator(ctx, ") {
+				stored = c.Src(as.Lhs[0])
+			}
+			return true
+		})
+		ok := stored != ""
+		ast.Inspect(gv.Body, func(x ast.Node) bool {
+			r, isRet := x.(*ast.ReturnStmt)
+			if !isRet {
+				return true
+			}
+			if len(r.Results) != 2 {
+				ok = false
+				return true
+			}
+			v, e := c.Src(r.Results[0]), c.Src(r.Results[1])
+			switch {
+			case v == stored && e == "nil":
+			case v == "stakingtypes.Validator{}" && e != "nil":
+			default:
+				ok = false
+			}
+			return true
+		})
+		gvStoreOnly = fmt.Sprintf("some %v", ok)
+	}
+	invents := false
+	var tokenReads []string
+	for _, f := range files {
+		for _, d := range f.Decls {
+			fd, isFn := d.(*ast.FuncDecl)
+			if !isFn || fd.Body == nil {
+				continue
+			}
+			ast.Inspect(fd.Body, func(x ast.Node) bool {
+				switch v := x.(type) {
+				case *ast.CompositeLit:
+					if c.Src(v.Type) == "stakingtypes.Validator" && len(v.Elts) > 0 {
+						invents = true
+					}
+				case *ast.SelectorExpr:
+					if v.Sel.Name == "Tokens" || v.Sel.Name == "GetTokens" {
+						tokenReads = append(tokenReads, fd.Name.Name+": "+c.Src(v))
+					}
+				}
+				return true
+			})
+		}
+	}
+	var projSources []string
+	if vm != nil && vm.Body != nil {
+		for _, st := range vm.Body.List {
+			ts, ok := st.(*ast.TypeSwitchStmt)
+			if !ok {
+				continue
+			}
+			for _, cc := range ts.Body.List {
+				cl := cc.(*ast.CaseClause)
+				assigned := map[string]string{}
+				for _, b := range cl.Body {
+					ast.Inspect(b, func(x ast.Node) bool {
+						switch v := x.(type) {
+						case *ast.AssignStmt:
+							if len(v.Rhs) == 1 && len(v.Lhs) >= 1 {
+								assigned[c.Src(v.Lhs[0])] = c.Src(v.Rhs[0])
+							}
+						case *ast.CallExpr:
+							if sel, ok := v.Fun.(*ast.SelectorExpr); ok && strings.HasSuffix(sel.Sel.Name, "ProjectedVotingPower") && len(v.Args) >= 2 {
+								src, ok := assigned[c.Src(v.Args[1])]
+								if !ok {
+									src = "?"
+								}
+								projSources = append(projSources, src)
+							}
+						}
+						return true
+					})
+				}
+			}
+		}
+	}
+	sb.WriteString("/-- parameter types of getValidator -/\ndef getValidatorParams : List String := " + leanStrList(gvParams) + "\n")
+	sb.WriteString("/-- getValidator returns only the validator it read from the staking keeper (else the empty struct with an error) -/\ndef getValidatorStoreOnly : Option Bool := " + gvStoreOnly + "\n")
+	sb.WriteString(fmt.Sprintf("/-- some function of the package builds a stakingtypes.Validator value of its own -/\ndef inventsValidators : Bool := %v\n", invents))
+	sb.WriteString("/-- every read of a validator's tokens in the package: function and expression -/\ndef tokenReads : List String := " + leanStrList(tokenReads) + "\n")
+	sb.WriteString("/-- where the validators handed to the voting-power projection in validateMsg come from -/\ndef projectionSources : List String := " + leanStrList(projSources) + "\n\n")
+
 	// ---- constants
 	for _, nm := range []struct{ goName, leanName string }{{"MinCommission", "minCommission"}, {"maxVotingPower", "maxVotingPower"}} {
 		val := "none"
